@@ -259,9 +259,9 @@ Definition do_cmp (m : ubehav) (op : cmpop) (a b : value) : outcome bool :=
           | CEq => value_eqb a b
           | CNe => negb (value_eqb a b)
           | CLt => value_ltb a b
-          | CLe => value_ltb a b || value_eqb a b
+          | CLe => negb (value_ltb b a)          (* PartialOrd::le = not greater: across kinds (true <= 1) this is the order, not == *)
           | CGt => value_ltb b a
-          | CGe => value_ltb b a || value_eqb a b
+          | CGe => negb (value_ltb a b)
           | _ => false
           end)))
   end.
